@@ -376,16 +376,22 @@ func runC40(c *vh.Ctx) {
 	}
 	linked := linkedRequests()
 	c.Hist(fmt.Sprintf("linked-go-packages:%d", len(linked)))
-	// multi-file packages first (they exercise permutation and single-vs-batch), then by name
-	sort.SliceStable(linked, func(i, j int) bool { return len(linked[i].toGen) > len(linked[j].toGen) })
-	nl := c.N(10, len(linked))
-	if nl > len(linked) {
-		nl = len(linked)
-	}
+	nl := len(linked)
 	if !c.Thorough() {
-		// quick: the five largest packages plus a seed-dependent sample of the rest
-		rest := linked[5:]
-		r.Shuffle(len(rest), func(i, j int) { rest[i], rest[j] = rest[j], rest[i] })
+		// quick: a seed-dependent sample: three multi-file Go packages (they exercise permutation and
+		// single-vs-batch) and seven others
+		var multi, one []*baseReq
+		for _, br := range linked {
+			if len(br.toGen) > 1 {
+				multi = append(multi, br)
+			} else {
+				one = append(one, br)
+			}
+		}
+		r.Shuffle(len(multi), func(i, j int) { multi[i], multi[j] = multi[j], multi[i] })
+		r.Shuffle(len(one), func(i, j int) { one[i], one[j] = one[j], one[i] })
+		linked = append(append([]*baseReq{}, multi[:min(3, len(multi))]...), one[:min(7, len(one))]...)
+		nl = len(linked)
 	}
 	reqs := append([]*baseReq{}, linked[:nl]...)
 	reqs = append(reqs, randomRequests(c, c.N(5, 25))...)
@@ -394,13 +400,14 @@ func runC40(c *vh.Ctx) {
 		if !c.Thorough() {
 			// quick tier: the empty parameter, the three API levels, and a seed-dependent sample of the rest
 			pick := []string{"", "default_api_level=API_OPEN", "default_api_level=API_HYBRID", "default_api_level=API_OPAQUE,annotate_code=true"}
-			for k := 0; k < 4; k++ {
+			for k := 0; k < 2; k++ {
 				pick = append(pick, combos[r.Intn(len(combos))])
 			}
 			combos = pick
 		}
-		for _, p := range combos {
-			e.checkRequest(c, br, p, r, true)
+		for pi, p := range combos {
+			// single-file requests for every parameter string in the thorough tier, for the first one otherwise
+			e.checkRequest(c, br, p, r, c.Thorough() || pi == 0)
 			if c.Failed() {
 				return
 			}
